@@ -569,6 +569,7 @@ func c15SlowDial(who string) *sched.Scenario {
 			if err != nil {
 				panic(err)
 			}
+			pa := w.NewPeer("A")
 			var nt notes
 			life := func(c string) uint32 {
 				if (who == "own") == (c == "c1") {
@@ -579,10 +580,18 @@ func c15SlowDial(who string) *sched.Scenario {
 			}
 			vsched.Go("driver", func() {
 				c1.Do(wire.Allocate, func(b *wire.B) { tcp(b); b.U32(wire.AttrLifetime, life("c1")) })
-				c2.Do(wire.Allocate, func(b *wire.B) { udp(b); b.U32(wire.AttrLifetime, life("c2")) })
+				r2 := c2.Do(wire.Allocate, func(b *wire.B) { udp(b); b.U32(wire.AttrLifetime, life("c2")) })
+				relay2, _ := r2.XorAddr(wire.AttrXORRelayedAddress)
+				c2.Do(wire.CreatePermission, peer("A"))
 				vsched.Mark()
 				c1.Fire(wire.Connect, peer("B")) // the server dials for 2 s
 				vsched.IdleSleep(1500 * time.Millisecond)
+				if who == "other" && relay2 != nil {
+					// c2's allocation expired half a second ago: its relayed address relays nothing any more
+					_, _ = pa.WriteTo([]byte("half-a-second-after-the-expiry"), relay2)
+					vsched.IdleSleep(100 * time.Millisecond)
+					nt.set("relayed-after-expiry", fmt.Sprint(c2.Conn.PendingIn()))
+				}
 				nt.set("count@1.5s", fmt.Sprint(w.Srv.AllocationCount()))
 				vsched.IdleSleep(3 * time.Second) // the dial has returned long ago
 				nt.set("count@4.5s", fmt.Sprint(w.Srv.AllocationCount()))
@@ -606,6 +615,9 @@ func c15SlowDial(who string) *sched.Scenario {
 				}
 				if nt.get("count@1.5s") != "1" || nt.get("count@4.5s") != "1" {
 					out = append(out, fmt.Sprintf("c15:expired-allocation-still-counted-during-slow-dial:count@1.5s=%s,count@4.5s=%s", nt.get("count@1.5s"), nt.get("count@4.5s")))
+				}
+				if v := nt.get("relayed-after-expiry"); v != "" && v != "0" {
+					out = append(out, "c15:expired-allocation-still-relays-while-another-request-dials")
 				}
 				if who == "own" && nt.get("peer-conns-open@4.5s") != "0" {
 					out = append(out, "c15:peer-connection-of-an-expired-allocation-left-open:"+nt.get("peer-conns-open@4.5s"))
@@ -724,6 +736,62 @@ func c07RefreshVsExpiry(kind string) *sched.Scenario {
 		}}
 }
 
+// ---------------------------------------------------------------- C19
+
+// c19RetransmitDuringSlowAllocate: an Allocate whose relay socket takes 1 s to create, retransmitted
+// (same transaction id) three times meanwhile, as a client with a 200 ms RTO does. One allocation and one
+// relay socket result, and every answer to that transaction names the same relayed address.
+func c19RetransmitDuringSlowAllocate() *sched.Scenario {
+	return &sched.Scenario{Name: "c19-allocate-retransmitted-while-the-first-copy-is-being-served", Bound: bound(), FreeBound: 3, Opt: opt,
+		Body: func(*vsched.Sched) (func() []string, func()) {
+			w := sched.NewBW(sched.BCfg{SlowAlloc: time.Second})
+			c := w.NewClient("c1")
+			var nt notes
+			vsched.Go("client", func() {
+				c.Do(wire.Allocate, udp) // learns the nonce ...
+				c.Do(wire.Refresh, lifetime(0)) // ... and leaves nothing behind
+				c.Sock.Drain()
+				vsched.Mark()
+				tx := c.NextTx()
+				m := wire.New(wire.Allocate, wire.Request, tx)
+				udp(m)
+				m.Str(wire.AttrUsername, c.User).Str(wire.AttrRealm, vtx.Realm).Str(wire.AttrNonce, c.Nonce).Integrity(wire.LongTermKey(c.User, vtx.Realm, c.Pass))
+				raw := m.Bytes()
+				for i := 0; i < 3; i++ {
+					c.Send(raw)
+					vsched.IdleSleep(200 * time.Millisecond)
+				}
+				vsched.IdleSleep(5 * time.Second)
+				relays := map[string]bool{}
+				for _, d := range c.Sock.Drain() {
+					if msg, err := wire.Parse(d.Data); err == nil && msg.TxID == tx && msg.Class == wire.Success {
+						if ra, ok := msg.XorAddr(wire.AttrXORRelayedAddress); ok {
+							relays[ra.String()] = true
+						}
+					}
+				}
+				open := 0
+				for _, sk := range w.Net.OpenUDP() {
+					if strings.HasPrefix(sk, "10.9.0.1:") {
+						open++
+					}
+				}
+				nt.set("result", fmt.Sprintf("count=%d,relay-sockets=%d,relayed-addresses-answered=%d", w.Srv.AllocationCount(), open, len(relays)))
+			})
+
+			return func() []string {
+				switch r := nt.get("result"); r {
+				case "":
+					return []string{"c19:client-never-completed"}
+				case "count=1,relay-sockets=1,relayed-addresses-answered=1":
+					return nil
+				default:
+					return []string{"c19:retransmitted-allocate-created-something:" + r}
+				}
+			}, func() { _ = w.Srv.Close() }
+		}}
+}
+
 func run(t *testing.T, prop string, scs ...*sched.Scenario) {
 	r := rep.New(prop)
 	defer r.Write()
@@ -736,6 +804,7 @@ func run(t *testing.T, prop string, scs ...*sched.Scenario) {
 }
 
 func TestC02Sched(t *testing.T) { run(t, "C02", c02ExpiryRace()) }
+func TestC19Sched(t *testing.T) { run(t, "C19", c19RetransmitDuringSlowAllocate()) }
 func TestC07Sched(t *testing.T) { run(t, "C07", c07RefreshVsExpiry("perm"), c07RefreshVsExpiry("chan")) }
 func TestC06Sched(t *testing.T) { run(t, "C06", c06Realloc(), c06ReallocVsTimer(), c06Reconnect()) }
 func TestC04Sched(t *testing.T) { run(t, "C04", c04TwoConns()) }
